@@ -70,6 +70,8 @@ pub struct Sys {
     /// API operations (Put/Remove/Block) issued so far and their bound; scheduler steps are unbounded
     api_used: usize,
     api_max: usize,
+    /// violations noticed inside `apply` (reported by `step`, dropped by `step_quiet`)
+    late_fails: Vec<Fail>,
 }
 
 static SCRATCH_SEQ: AtomicU64 = AtomicU64::new(0);
@@ -108,6 +110,7 @@ impl Sys {
             scratch,
             api_used: 0,
             api_max,
+            late_fails: vec![],
         }
         .prefilled(prefill)
     }
@@ -252,12 +255,15 @@ impl System for Sys {
     }
 
     fn step(&mut self, a: &Act, fails: &mut Vec<Fail>) {
+        self.late_fails.clear();
         self.apply(a);
+        fails.append(&mut self.late_fails);
         self.check(fails);
     }
 
     fn step_quiet(&mut self, a: &Act) {
         self.apply(a);
+        self.late_fails.clear();
     }
 
     fn canon(&self) -> Vec<u8> {
@@ -279,12 +285,21 @@ impl Sys {
                 let val = self.uni.values[*k][*v].clone();
                 let before: Vec<RecordKey> = self.rig.view().records.into_iter().map(|(k, _)| k).collect();
                 self.handed[*k].push(val.clone());
+                let tasks_before = self.rig.exec.task_count();
+                let held_already = before.contains(&key);
                 let res = self.rig.put(&key, &val);
                 let after: Vec<RecordKey> = self.rig.view().records.into_iter().map(|(k, _)| k).collect();
-                // evictions decided inside put_verified are removals issued by the store itself
+                let started_write = (tasks_before..self.rig.exec.task_count()).any(|id| self.rig.exec.info(id).func.ends_with("::put_verified"));
+                // evictions decided inside put_verified are removals issued by the store itself — legitimate only to make
+                // room for a record that is new to the store: a put that starts no write (same bytes already cached), is
+                // refused, or replaces a record already held needs no room, and an accepted settled write must not vanish for it
                 for gone in before.iter().filter(|x| !after.contains(x)) {
                     if let Some(g) = self.key_index(gone) {
                         if g != *k {
+                            if !started_write || res.is_err() || held_already {
+                                let why = if res.is_err() { "a refused put" } else if !started_write { "a put that started no write" } else { "an update of a record already held" };
+                                self.late_fails.push(Fail::new("accepted-write-vanished", "evicted-without-a-new-record", format!("k{g}, accepted and settled, was dropped from the store by {why} (Put k{k})")));
+                            }
                             self.note_removed(g);
                         }
                     }
